@@ -368,13 +368,14 @@ class SqlImpl(TableImpl):
         if isinstance(nd, verbs.Verb):
             # store a counter in `needed_cols how often each UUID is referenced by
             # ancestors. This allows to only select necessary columns in a subquery.
-            for node in nd.iter_col_nodes():
-                if isinstance(node, Col):
-                    cnt = needed_cols.get(node._uuid)
-                    if cnt is None:
-                        needed_cols[node._uuid] = 1
-                    else:
-                        needed_cols[node._uuid] = cnt + 1
+            used_uuids = [node._uuid for node in nd.iter_col_nodes() if isinstance(node, Col)]
+            if isinstance(nd, verbs.Union):
+                # every visible column of both operands takes part in a union (dropping one in a
+                # subquery below would change which rows are duplicates)
+                used_uuids += list(Cache.from_ast(nd.child).uuid_to_name.keys())
+                used_uuids += list(Cache.from_ast(nd.right).uuid_to_name.keys())
+            for uid in used_uuids:
+                needed_cols[uid] = needed_cols.get(uid, 0) + 1
 
             table, query, sqa_expr = cls.compile_ast(nd.child, needed_cols)
 
@@ -534,8 +535,6 @@ class SqlImpl(TableImpl):
             # If column order doesn't match, wrap right AST with a Select to reorder
             if left_col_names != right_col_names:
                 # Get right cache to access Col objects for reordering
-                from pydiverse.transform._internal.pipe.cache import Cache
-
                 right_cache = Cache.from_ast(nd.right)
 
                 # Get Col objects from right cache in the order of left columns
@@ -603,13 +602,12 @@ class SqlImpl(TableImpl):
 
         if isinstance(nd, verbs.Verb):
             # decrease counters (`needed_cols` is not copied)
-            for node in nd.iter_col_nodes():
-                if isinstance(node, Col):
-                    cnt = needed_cols.get(node._uuid)
-                    if cnt == 1:
-                        del needed_cols[node._uuid]
-                    else:
-                        needed_cols[node._uuid] = cnt - 1
+            for uid in used_uuids:
+                cnt = needed_cols.get(uid)
+                if cnt == 1:
+                    del needed_cols[uid]
+                else:
+                    needed_cols[uid] = cnt - 1
 
         return table, query, sqa_expr
 
